@@ -185,7 +185,15 @@ def run(ctx):
                             "blocks already decoded (shared with C16.R2)", "DOM+PAIR")
     from . import c16
     c16.attach_order_rule(ctx, r5)
-    r5.floor(3, "attach ordering facts")
+    r5.floor(5, "attach ordering facts")
+
+    # ---- R6 the close-object flag may only ride on the last transfer: the counter is_last_transfer reads ---------------------
+    r6 = ctx.rule("C02.R6", "an object sent in several transfers is not closed early: TransferInfo.transfer_count, which is_last_transfer() "
+                            "compares with max_transfer_count to raise the B flag, counts completed transfers only (+1 in done, reset in init "
+                            "under carousel) — shared with C12.R1", "WWF")
+    from . import c12
+    c12.transfer_counter_rule(ctx, r6)
+    r6.floor(3, "writes to the counters")
 
 
 def _orient_leaf(t, label, leaf_regex):
